@@ -70,6 +70,19 @@ def judge(obj_name, grad_fn, logd_fn, x, rec, tol_rel=1e-5, fd=False):
     require(np.all(np.isfinite(g)) and float(np.max(np.abs(g - want))) <= tol,
             f"{obj_name}: gradient differs from the derivative of its own log-density (max err {float(np.max(np.abs(g - want))):.3g})",
             got=g, want=want, x=x)
+    # the caller's buffer re-used: the same array object overwritten in place between two calls (finite-difference loops,
+    # optimisers) must give the gradient at its current content
+    buf = x.copy()
+    refuses(lambda: grad_fn(buf))
+    x2 = x * (1 + 1e-3) + 1e-3
+    buf[:] = x2
+    r1, g_buf = refuses(lambda: grad_fn(buf))
+    r2, g_new = refuses(lambda: grad_fn(x2.copy()))
+    if not r1 and not r2 and g_buf is not None and g_new is not None:
+        a, b = np.asarray(g_buf, dtype=float).reshape(-1), np.asarray(g_new, dtype=float).reshape(-1)
+        same = a.shape == b.shape and np.all((a == b) | (np.isnan(a) & np.isnan(b)) | (np.abs(a - b) <= 1e-12 * (1 + np.abs(b))))
+        require(bool(same), f"{obj_name}: the gradient evaluated on a buffer that was overwritten in place is not the gradient at the "
+                "buffer's current content", on_buffer=a, on_fresh_copy=b)
     return "checked"
 
 
